@@ -2,4 +2,4 @@ From Coq Require Import Extraction ExtrOcamlBasic ZArith List.
 From LP Require Import Num C01_Model.
 Extraction Language OCaml.
 Extraction "C01_m.ml" construct construct_rows locate interpolate derivative construct2 construct2_table interpolate2
-  ixs iN jxs jys Z.of_nat Z.to_nat.
+  session_run answer_1d answer_2d ixs iN jxs jys Z.of_nat Z.to_nat.
